@@ -139,8 +139,7 @@ def check_case(case, ctx=None):
             _same("staticrequest-update:trace", r_s[0].get_choices(), r_m[0].get_choices(), case, tol=1e-6)
             _same("staticrequest-update:score", r_s[0].get_score(), r_m[0].get_score(), case, tol=1e-5)
             _same("staticrequest-update:weight", r_s[1], r_m[1], case, tol=1e-5)
-            masg = dict(run_i.assignment())
-            masg.update(under)
+            masg = gfi_hist.model_after_update(node, run_i.assignment(), under)
             nnew = gfi.to_np_args(sg, new_json)
             run_s, fresh = gfi.check_trace_against_model(r_s[0], node, nnew, masg, "staticrequest-update:", case, Violation, allow_fresh=True)
             nt = len(site) >= 1 and len(callee_kinds) >= 2
